@@ -112,7 +112,11 @@ func HarnessC02GroupBy() {
 	}
 	list, unknown := verifGenList(maxLen)
 	rows, _ := d.set("r", "r0")
-	idx := d.open(verifBool("preload"), nil)
+	var cache Cache
+	if len(list) <= 1 && verifBool("cache") {
+		cache = NewLRUCache(^uint64(0))
+	}
+	idx := d.open(verifBool("preload"), cache)
 	res, err := idx.Execute(&Query{Expr: &ExprEqual{Column: "r", Value: "r0"}, GroupBy: list})
 	if unknown {
 		verifAssert(err != nil && res == nil, "C02: a group-by list naming a column that occurs in no row must yield an error and no result")
@@ -120,6 +124,15 @@ func HarnessC02GroupBy() {
 		verifAssert(err == nil, "C02: a well-formed grouped query returned an error")
 		if err == nil {
 			verifCheckGroups(d, list, rows, res, "C02")
+		}
+		// the same answer again on the same open index (grouping must not consume or alter
+		// the bitmaps it reads: preloaded data, cached results)
+		if len(list) <= 2 {
+			res2, err2 := idx.Execute(&Query{Expr: &ExprEqual{Column: "r", Value: "r0"}, GroupBy: list})
+			verifAssert(err2 == nil, "C02: a well-formed grouped query returned an error when repeated")
+			if err2 == nil {
+				verifCheckGroups(d, list, rows, res2, "C02 (repeated on the same index)")
+			}
 		}
 	}
 	idx.Close()
